@@ -165,8 +165,8 @@ func init() {
 				add("varint-width-values-k2", merge(base, p("k", 2, "ops", opPut|opDelete, "vlens", 5, "vbig", 127, "vbig2", 128, "vbig3", 129, "index", 3, "shards", 1, "r_io", 2)))
 				add("btree-crowd70-k1-k1", merge(base, p("crowd", 70, "k", 1, "k2", 1, "ops", opPut|opDelete, "vlens", 1, "index", 1, "shards", 1, "r_index", 2, "r_shards", 3)))
 			} else {
-				add("end-offsets-std", merge(base, p("k", 1, "ops", opPut, "vlens", 4, "vbig2", -100, "index", 3, "shards", 1)))
-				add("end-offsets-mmap", merge(base, p("k", 1, "ops", opPut, "vlens", 4, "vbig2", -100, "index", 3, "shards", 1, "io", 1, "r_io", 1)))
+				add("end-offsets-std", merge(base, p("k", 1, "ops", opPut, "vlens", 4, "vbig2", -60, "index", 3, "shards", 1)))
+				add("end-offsets-mmap", merge(base, p("k", 1, "ops", opPut, "vlens", 4, "vbig2", -60, "index", 3, "shards", 1, "io", 1, "r_io", 1)))
 				for w := 1; w <= 3; w++ {
 					for r := 1; r <= 3; r++ {
 						add(fmt.Sprintf("%s-to-%s-k3-k1", idxName[w], idxName[r]), merge(base, p("k", 3, "k2", 1, "ops", opPut|opDelete, "index", w, "shards", 2, "r_index", r, "r_shards", 3, "dfs_lo", 40, "dfs_hi", 150, "r_dfs_lo", 20, "r_dfs_hi", 60)))
@@ -185,7 +185,7 @@ func init() {
 		Assumptions: []string{"blockSize scaled to 32 (Level 1), mmap granule 128", "I/O never fails", "no foreign files in the directory"},
 		Bounds: map[string]string{
 			"quick":    "K=1..3 ops + restart (+K2<=2 ops + second restart); every end offset of a one-record file over 40 value lengths (std and mmap); writer/reader pairs over index type, shard count, I/O type, DataFileSize (symbolic, reader smaller than existing files); batches of <=2 ops; merge; plus: 12 data files before the history (ids 0..11); configuration as a choice point; value lengths 127/128/129 (uvarint width change)",
-			"thorough": "all 9 writer/reader index pairs at K=3+1, 100 value lengths for end offsets, batches and merges mixed in",
+			"thorough": "all 9 writer/reader index pairs at K=3+1, 60 value lengths for end offsets, batches and merges mixed in",
 		},
 		Outside: "more than two restarts; histories longer than K+K2; real 32 KiB geometry; foreign files",
 		Stubs:   stubsCommon,
